@@ -56,9 +56,31 @@ for p in sorted(finds):
         out.append("* **%s** `%s` — %s" % (p, k, t[:600]))
 defect_txt = "\n".join(out)
 
+# --- per-property proof inventory (theorem names from the statement lock, statement-only defs from the Props files)
+lock = json.load(open(os.path.join(V, "lean", "MptModel", "Props", "STATEMENTS.lock")))
+src = json.load(open(os.path.join(V, "tools", "manifest_src.json")))
+prows = ["| id | theorems (locked statements) | stated only (`def …_statement`) | driver parts |", "|---|---|---|---|"]
+import importlib, sys
+sys.path.insert(0, V)
+for pid in sorted(lock):
+    names = [n.split(".")[-1] for n in lock[pid]]
+    pf = os.path.join(V, "lean", "MptModel", "Props", pid + ".lean")
+    stm = re.findall(r"^def (\w+_statement)", open(pf).read(), re.M) if os.path.exists(pf) else []
+    try:
+        mod = importlib.import_module("vlib.props." + pid.lower())
+        parts = [mod.driver] + [q.driver for q in getattr(mod, "extra_parts", [])]
+    except Exception as e:
+        parts = ["?"]
+    prows.append("| %s | %d: %s | %s | %s |" % (pid, len(names), ", ".join("`%s`" % n for n in names),
+                                             ", ".join("`%s`" % n for n in stm) or "—", ", ".join(parts)))
+proof_txt = ("Generated from `lean/MptModel/Props/STATEMENTS.lock` (every listed theorem is built, audited with `#print axioms` and "
+             "compared with its locked statement hash on every run) and from the `def …_statement` declarations of the Props files. "
+             "What each theorem says is in the `level_claimed.text` of MANIFEST.json and in the doc comments of `Props/Cxx.lean`.\n\n"
+             + "\n".join(prows))
+
 p = os.path.join(V, "DESIGN.md")
 s = open(p).read()
-for tag, txt in (("SEEDED", seed_txt), ("DEFECTS", defect_txt)):
+for tag, txt in (("SEEDED", seed_txt), ("DEFECTS", defect_txt), ("PROOFS", proof_txt)):
     a, b = "<!-- BEGIN GENERATED %s -->" % tag, "<!-- END GENERATED %s -->" % tag
     if a in s:
         s = s[:s.index(a) + len(a)] + "\n" + txt + "\n" + s[s.index(b):]
